@@ -69,7 +69,23 @@ func evalC06(src []byte, cfg string) (o Outcome) {
 		}
 		// (a)
 		last := -1
+		var spans map[[2]int]bool
 		for i, e := range po.Errs {
+			// the offsets select the offending text: a syntax error is reported at a token, so its span must be
+			// the span of a token of this very source (offsets counted from the first byte the caller handed over)
+			if e.Pos != nil && strings.HasPrefix(e.Msg, "syntax error") && e.Pos.StartPos >= 0 && e.Pos.EndPos <= len(src) && e.Pos.StartPos < e.Pos.EndPos {
+				if spans == nil {
+					spans = map[[2]int]bool{}
+					if lt, _, pan := lexAll(src, a, b); pan == "" {
+						for _, t := range lt {
+							spans[[2]int{t.S, t.E}] = true
+						}
+					}
+				}
+				if len(spans) > 0 && !spans[[2]int{e.Pos.StartPos, e.Pos.EndPos}] {
+					fail("error-span-not-a-token", fmt.Sprintf("syntax error %q at %d..%d (%q): no token of the source has that span", clip(e.Msg, 50), e.Pos.StartPos, e.Pos.EndPos, clip(string(src[e.Pos.StartPos:e.Pos.EndPos]), 30)))
+				}
+			}
 			if strings.TrimSpace(e.Msg) == "" {
 				fail("error-empty-message", fmt.Sprintf("error #%d has an empty message", i))
 			}
@@ -144,6 +160,13 @@ func oracleC06() *Result {
 		}
 	}
 	srcs = append(srcs, cfgSentences(rng)...)
+	// what may stand in front of the first open tag: a byte order mark, a shebang line, inline HTML — followed by
+	// malformed code, so that errors with positions are delivered behind it
+	for _, pre := range []string{"\xef\xbb\xbf", "#!/usr/bin/env php\n", "<html>\n", "\xef\xbb\xbf#!/bin/php\n", "\n\n"} {
+		for _, bad := range []string{"<?php\n$a = ;\n", "<?php foo(;\n$b = 1;", "<?php\nclass { }\n", "<?php $x = \x01 1; echo 2 3;", "<?php\n\n} echo 1;"} {
+			add([]byte(pre+bad), "prefix-malformed")
+		}
+	}
 	for _, s := range srcs {
 		add(s, "base")
 		toks, _, pan := lexAll(s, 7, 4)
